@@ -171,7 +171,9 @@ fn answer(db: &Db, query: &str) -> String {
     if let Some(rest) = query.strip_prefix("!m") {
         if let Some(name) = rest.strip_prefix("filter-set,") {
             return match db.filter_sets.get(name) {
-                Some(objs) if !objs.is_empty() => {
+                // a name the server knows but has no object text for: success, no data
+                Some(objs) if objs.is_empty() => "C\n".into(),
+                Some(objs) => {
                     let data = objs.iter().map(|e| filter_set_object(name, e)).collect::<Vec<_>>().join("\n\n");
                     format!("A{}\n{data}\nC\n", data.len() + 1)
                 }
